@@ -21,7 +21,7 @@ CONSTANTS Geoms,      \* set of subsystem-size tuples, e.g. {<<2,2>>, <<2,2,2>>}
           AmpsL,      \* set of amplitudes for larger total dimension
           Pin,        \* number of leading amplitudes pinned to the first amplitude for total dimension > 4
           Mutant,     \* "none", or the name of a deliberately wrong variant (self-test: must violate)
-          ExemptKnown,\* TRUE: the recorded finding (partial_trace_to_mpo conjugates the ket copy) is exempt
+          PreFix,     \* TRUE: partial_trace_to_mpo as before the "fix:" commit b933ce2a (conjugate on the ket copy) - self-test only
           Emit        \* TRUE: print the availability cases as JSON (run with one worker)
 
 VARIABLES psi, dims, st,
@@ -84,11 +84,13 @@ ViaLoopExpansion ==
   /\ UNCHANGED <<psi, dims, ref>>
 
 (* ---------------- reduced density matrices ------------------------------ *)
-\* the routes that return rho itself; toMpo = the conjugate sits on the copy that keeps the ket indices
+\* the routes that return rho itself; toMpo = partial_trace_to_mpo, which before its fix put the conjugate
+\* on the copy that keeps the ket indices
 RdmRoute ==
   /\ st.ph = "init"
   /\ \E s \in SiteTuples(dims), toMpo \in BOOLEAN :
-       st' = [ph |-> "rdm", sites |-> s, toMpo |-> toMpo, mat |-> RhoImpl(psi, dims, s, toMpo \/ Mutant = "conj_on_ket")]
+       st' = [ph |-> "rdm", sites |-> s, toMpo |-> toMpo,
+              mat |-> RhoImpl(psi, dims, s, (toMpo /\ PreFix) \/ Mutant = "conj_on_ket")]
   /\ UNCHANGED <<psi, dims, ref>>
 
 \* the reduced state in operator form: trace joins upper with lower; partial transpose swaps them on sysa
@@ -141,9 +143,7 @@ RouteGivesDenseStmt ==
   st.ph = "value" => st.num = ExpNumStmt(psi, dims, st.sites, OpFor(SubDims(dims, st.sites), st.kind))
 
 RdmGivesDense ==
-  st.ph = "rdm" =>
-    \/ st.mat = ref[st.sites]
-    \/ (ExemptKnown /\ st.toMpo /\ st.mat = ConjM(ref[st.sites]))     \* named deviation KF-C13-1
+  st.ph = "rdm" => st.mat = ref[st.sites]
 RdmShape ==
   st.ph = "rdm" => /\ IsHermitian(st.mat)
                    /\ TraceM(st.mat) = <<Den(psi), 0>>
